@@ -605,6 +605,16 @@ def edits(root, sm):
             root.insert(0, mk("import", **attrs))
         add("R9:import-%s" % label, 0, f)
 
+    # R9: a package name that begins with '.' is relative to the prefix -- and only that: a package
+    # of that name at top level does not make it importable
+    def f(root):
+        if not root.get("prefix"):
+            if ' datatype=".' in render(root) or ' keytype=".' in render(root):
+                raise LookupError
+            root.set("prefix", "zcvnosuchprefix")
+        root.insert(0, mk("import", package=".ZConfig.components.basic"))
+    add("R9:import-relative-package-that-exists-only-at-top-level", 0, f)
+
     for variant in ("wildcard-first", "wildcard-after-a-key", "wildcard-last-of-three", "through-a-middle-type"):
         for multi in (False,):        # a '+' multikey merges the values of colliding keys: no rule broken
             def f(root, variant=variant, multi=multi):
